@@ -61,7 +61,15 @@ impl<'a> View<'a> {
 
     /// Latest connection known under `addr` that was opened at or before `seq`.
     pub fn conn_of_addr_at(&self, addr: &str, seq: u64) -> Option<ConnId> {
-        self.conns.values().filter(|c| c.addr == addr && c.open_seq <= seq).map(|c| c.conn).max()
+        // two connections can carry the same address (a peer we dialled dials us from its
+        // listening port): hook events belong to the one the client has not closed yet
+        let live = self
+            .conns
+            .values()
+            .filter(|c| c.addr == addr && c.open_seq <= seq && c.client_close.map(|(s, _)| s > seq).unwrap_or(true))
+            .map(|c| c.conn)
+            .max();
+        live.or_else(|| self.conns.values().filter(|c| c.addr == addr && c.open_seq <= seq).map(|c| c.conn).max())
     }
 
     /// Virtual time from which the peer behind `conn` has been reading again without
